@@ -424,6 +424,19 @@ def fresh_cell_for_new_names_only(F, rep):
             else:
                 # a plain name: allowed only where the statement runs in a frame of its own
                 own_frame = f.path.startswith("<compiler::ast::class::member_variable::MemberVariable as")
+                if f.path.startswith("<compiler::ast::class::Class as"):
+                    # the name of a class declared inside of a function: new in its block, because Parser::class refuses a name the block has already
+                    pc = F.fn("compiler::ast::class::<impl compiler::parser::Parser>::class") or F.fn("compiler::parser::Parser::class")
+                    fresh = False
+                    if pc is not None:
+                        looks = pc.calls_to("compiler::parser::AssocFileData::get_ident_from_name_local")
+                        removed = set()
+                        for bb, base, targets, other in rules.discr_switches(pc, pc.derived([c2.dst["l"] for c2 in looks])):
+                            removed.add((bb, targets.get("0", other)))          # the `None` edge: the name is new
+                        fresh = bool(removed) and not (set(rules.ok_return_blocks(pc)) & pc.reachable(0, removed_edges=removed))
+                    rep.ob("C07.fresh-cell", label + " only for a class name that is new in its block", "ok" if fresh else "violated",
+                           "" if fresh else "Parser::class does not refuse a name the block already has: the class would replace that variable's cell", span, fn=f.path, key=key)
+                    continue
                 rep.ob("C07.fresh-cell", label + " in a frame of its own", "ok" if own_frame else "undecided",
                        "class members are stored into the fresh class-body frame during construction" if own_frame else
                        "a store_fast of a program name outside the forms this rule knows", span, fn=f.path, key=key)
